@@ -88,6 +88,7 @@ type FnTrans struct {
 	curCall    *ssa.CallCommon
 	binds      map[string]Val
 	pendingBind string
+	lastBind    string // bind name given to the call being translated (results become <name>_r*)
 	partial     bool
 	refines     *FuncContract // function-type contract this closure must refine
 	inlineDepth int
@@ -703,7 +704,7 @@ func (tr *FnTrans) run() {
 	tr.analyze()
 	if tr.fc != nil && tr.fc.Partial {
 		tr.partial = true
-		tr.vc.assume("PARTIAL contract of " + tr.name + ": only its stated assertions, invariants and postconditions are checked; run-time safety, callee preconditions and lock discipline inside it are NOT checked (bounded stand-in, not counted as proved)")
+		tr.vc.assume("PARTIAL contract of " + tr.name + ": only its stated assertions, invariants and postconditions are checked; run-time safety, callee preconditions, lock discipline inside it and the components its modifies clause excepts (heap-except) are NOT checked (bounded stand-in, not counted as proved)")
 	}
 	if tr.fc != nil {
 		tr.wrapping = tr.fc.Wrapping
@@ -1113,6 +1114,9 @@ func (tr *FnTrans) loopHeader(li *loopInfo, phiEntry map[*ssa.Phi]Val) {
 			if tr.fc.ModHeap && !strings.HasPrefix(c, "G$") {
 				continue
 			}
+			if tr.fc.ModGhosts && strings.HasPrefix(c, "G$") {
+				continue
+			}
 			if strings.HasPrefix(c, "G$") {
 				// ghost state: unchanged unless the modifies clause names it
 				// (partially named maps keep their other entries)
@@ -1412,6 +1416,58 @@ func (tr *FnTrans) lookupLocal(name string, at *ssa.BasicBlock, heap *Heap) (Val
 	return v, true
 }
 
+// lookupAtExit resolves a local variable for an assertion at the function's
+// exit: the latest debug reference whose block dominates every returning block.
+func (tr *FnTrans) lookupAtExit(name string, heap *Heap) (Val, bool) {
+	var rets []*ssa.BasicBlock
+	for _, b := range tr.fn.Blocks {
+		if len(b.Instrs) > 0 {
+			if _, ok := b.Instrs[len(b.Instrs)-1].(*ssa.Return); ok && b != tr.fn.Recover {
+				if _, reachable := tr.pos[b.Index]; reachable {
+					rets = append(rets, b)
+				}
+			}
+		}
+	}
+	var best *ssa.DebugRef
+	bestPos := -1
+	for _, d := range tr.debug[name] {
+		db := d.Block()
+		p, ok := tr.pos[db.Index]
+		if !ok {
+			continue
+		}
+		dom := true
+		for _, r := range rets {
+			if db == r || !db.Dominates(r) {
+				dom = false
+				break
+			}
+		}
+		if !dom {
+			continue
+		}
+		if _, ok := tr.vals[d.X]; !ok {
+			if _, isC := d.X.(*ssa.Const); !isC {
+				continue
+			}
+		}
+		if p >= bestPos {
+			best, bestPos = d, p
+		}
+	}
+	if best == nil {
+		return Val{}, false
+	}
+	v := tr.val(best.X)
+	if best.IsAddr {
+		if v.K == KPtr {
+			return scalarVal(v.Typ.Underlying().(*types.Pointer).Elem(), tr.vc.loadLoc(heap, v.Loc)), true
+		}
+	}
+	return v, true
+}
+
 // latch checks the invariants and the variant on a back edge from -> header.
 func (tr *FnTrans) latch(from *ssa.BasicBlock, li *loopInfo, cond string) {
 	if tr.scan || tr.fc == nil {
@@ -1522,6 +1578,7 @@ func (tr *FnTrans) atCall(simple string) {
 				}
 			}
 			tr.pendingBind = ai.Text
+			tr.lastBind = ai.Text
 			continue
 		}
 		if ai.What == "ghost" || ai.What == "hint" {
@@ -1734,6 +1791,9 @@ func (tr *FnTrans) exit() {
 		}
 		tr.atUsed[k] = true
 		hec := tr.specCtx(fin, tr.entryHeap, env)
+		// locals: a variable whose latest reference dominates every return
+		// (e.g. the loop variable of the function's main loop)
+		hec.lookup = func(name string) (Val, bool) { return tr.lookupAtExit(name, fin) }
 		t := sImp(anyRet, hec.evalBool(ai.E))
 		vc.oblig(fmt.Sprintf("%s#assert:%s", tr.name, ai.Label), "assert", t, "assertion at exit: "+ai.Text)
 		vc.fact(t, "")
@@ -2048,6 +2108,12 @@ func (tr *FnTrans) frameCheck(fin *Heap, reach string) {
 	for _, t := range targets {
 		byComp[t.comp] = append(byComp[t.comp], t)
 	}
+	exceptedComps := map[string]bool{}
+	for _, m := range tr.fc.ModExcept {
+		for _, t := range tr.modTargets(ec, m) {
+			exceptedComps[t.comp] = true
+		}
+	}
 	var comps []string
 	for c := range fin.m {
 		comps = append(comps, c)
@@ -2058,6 +2124,14 @@ func (tr *FnTrans) frameCheck(fin *Heap, reach string) {
 			continue
 		}
 		if tr.fc.ModHeap && !strings.HasPrefix(comp, "G$") {
+			// heap-except(...): the excepted components are framed like any
+			// other (a partial contract's modifies clause is assumed, see
+			// the PARTIAL note)
+			if !exceptedComps[comp] || tr.fc.Partial {
+				continue
+			}
+		}
+		if tr.fc.ModGhosts && strings.HasPrefix(comp, "G$") {
 			continue
 		}
 		if len(tr.fc.Calls) > 0 && !strings.HasPrefix(comp, "G$") {
